@@ -119,6 +119,10 @@ def run(tier, seed, driver):
     res = gwfam.run_family("C14", tier, seed, driver, CFG, relevant)
     stopwin.part(res, "C14", driver, tier)
     surrogate_part(res)
+    # the thread-based MQTT gateway with lines still queued when stop() is called: what the poll loop does with
+    # them afterwards must not leave the gateway holding (and answering from) what the file does not have
+    from .c06 import mqtt_backlog_part
+    mqtt_backlog_part(res, tier, driver)
     res.rule = ("state-aware random histories over all versions/kinds with json or pickle persistence, save ticks "
                 "and stop+restart cycles at random positions; corpus first; non-trivial = contains a restart; "
                 "distinct by op script")
@@ -128,6 +132,9 @@ def run(tier, seed, driver):
 def replay(payload):
     if payload.get("replay", {}).get("op") == "stop-window":
         return stopwin.replay(payload["replay"])
+    if payload.get("replay", {}).get("op") == "mqtt-backlog":
+        from . import c06
+        return c06.replay(payload)
     if payload.get("replay", {}).get("op") == "surrogate-text":
         import shutil
         import tempfile
